@@ -440,3 +440,76 @@ func (c *Ctx) Mod2() *ModAnalysis {
 	}
 	return c.mod2
 }
+
+// ---------------------------------------------------------------------------
+// field roles of the dense store and the paginated store (resolved from the code, not assumed)
+
+type denseRoleNames struct {
+	bins, count, offset, minIndex, maxIndex string
+	trigger                                string // paginated: the compaction-scheduling field
+	err                                    string
+}
+
+var dr = denseRoleNames{bins: "bins", count: "count", offset: "offset", minIndex: "minIndex", maxIndex: "maxIndex", trigger: "bufferCompactionTriggerLen"}
+
+// resolveDenseRoles: bins = the slice field; count = the field TotalCount() returns; minIndex / maxIndex =
+// the fields MinIndex() / MaxIndex() return on success; offset = the remaining int field.
+func (c *Ctx) resolveDenseRoles() {
+	dense := c.P.NamedType(pkgStore, "DenseStore")
+	if dense == nil {
+		dr.err = "type store.DenseStore not found"
+		return
+	}
+	var r denseRoleNames
+	var ints []string
+	for _, f := range structFields(dense) {
+		switch u := f.Type().Underlying().(type) {
+		case *types.Slice:
+			r.bins = f.Name()
+		case *types.Basic:
+			if u.Kind() == types.Int {
+				ints = append(ints, f.Name())
+			}
+		}
+	}
+	r.count = c.getterField(dense, "TotalCount")
+	succ := func(method string) string {
+		f := c.P.DeclaredMethod(dense, method)
+		if f == nil {
+			return ""
+		}
+		ps, _ := pathsOf(c.P, f, nil, execOpts{MaxVisits: 1, Pure: c.Mod.PureCall})
+		for _, p := range ps {
+			if p.RetNil(1) == 1 && len(p.RetT) == 2 && p.RetT[0].Op == "field" && p.RetT[0].Args[0].isParam(0) {
+				return p.RetT[0].Sym
+			}
+		}
+		return ""
+	}
+	r.minIndex, r.maxIndex = succ("MinIndex"), succ("MaxIndex")
+	for _, n := range ints {
+		if n != r.minIndex && n != r.maxIndex {
+			r.offset = n
+		}
+	}
+	if r.bins == "" || r.count == "" || r.minIndex == "" || r.maxIndex == "" || r.offset == "" || len(ints) != 3 {
+		dr.err = fmt.Sprintf("dense store roles unresolved: bins=%q count=%q min=%q max=%q offset=%q ints=%v", r.bins, r.count, r.minIndex, r.maxIndex, r.offset, ints)
+		return
+	}
+	// paginated: the int field the compaction routine stores directly
+	r.trigger = dr.trigger
+	if pr := c.paginated(); pr.err == "" {
+		tc := newTermCtx(c.P)
+		for _, b := range pr.compact.Blocks {
+			for _, in := range b.Instrs {
+				if st, ok := in.(*ssa.Store); ok {
+					at := tc.Of(st.Addr)
+					if at.Op == "field" && at.Args[0].isParam(0) && isInteger(st.Val.Type()) {
+						r.trigger = at.Sym
+					}
+				}
+			}
+		}
+	}
+	dr = r
+}
